@@ -187,6 +187,16 @@ func genC15(m *M, budget int) {
 				}
 				msg := m.mkBuf("msg", m.randBytes(m.rng.Intn(100)), lay())
 				dst := m.mkBuf("dst", m.randBytes(dl), lay())
+				bufs := []*callerBuf{msg, dst}
+				if m.rng.Intn(3) == 0 {
+					// message and DST are adjacent windows of one record: msg's spare capacity runs over dst
+					ml := 1 + m.rng.Intn(60)
+					rec := m.mkBuf("record", m.randBytes(ml+dl), "len=cap")
+					msg = &callerBuf{name: "msg", layout: "window", whole: rec.whole, off: 0, n: ml}
+					dst = &callerBuf{name: "dst", layout: "window", whole: rec.whole, off: ml, n: dl}
+					bufs = []*callerBuf{rec}
+					m.class("layout:one_record")
+				}
 				var rets [][]byte
 				switch fn {
 				case "HashToGroup":
@@ -200,7 +210,7 @@ func genC15(m *M, budget int) {
 					rets = append(rets, s.Encode())
 				}
 				m.class("dstlen:" + itoa(dl))
-				m.memCall(h, fn, []*callerBuf{msg, dst}, rets)
+				m.memCall(h, fn, bufs, rets)
 			}
 		}
 
